@@ -13,7 +13,7 @@ ASSUMPTIONS = ["oracle = the input rows themselves; geometry = exclusive prefix 
                "numpy's astype on one row is the reference for type conversion",
                "save/load is exercised as a round trip through a per-run temp directory only"]
 REQUIRED_FEATURES = ["empty_row_first", "empty_row_last", "consecutive_empty_rows", "all_rows_empty", "zero_rows",
-                     "mismatch_rejected", "numpy_roundtrip", "offsets_form", "long_repr", "non_rectangular_refused"]
+                     "mismatch_rejected", "numpy_roundtrip", "offsets_form", "long_repr", "non_rectangular_refused", "non_contiguous_input"]
 BOUNDS = {"quick": "LV(4,3) x 9 dtypes x 2 value patterns x 4 constructors, all readers; size mismatch -1,+1,0,2x; "
                    "from/to_numpy_array for n,m<=4 x 9 dtypes; one array of 120 cells (long repr branch)",
           "thorough": "LV(5,3) u LV(3,5) x 9 dtypes x 3 patterns x 4 constructors; numpy round trip n,m<=5"}
@@ -240,3 +240,9 @@ def _check_numpy(case, acc):
             acc.fail("to_numpy_array(zero rows)-dtype", dts, o, classifier="c01.zero-row-to_numpy_array-dtype")
         return
     cmp(acc, "numpy-roundtrip", A(a.tolist(), dtype=dts, shape=(n, m)), o)
+    # the same matrix handed over in other memory layouts: transposed view of the transposed data, Fortran order, every second row of a taller matrix
+    acc.feature("non_contiguous_input")
+    layouts = {"transposed-view": np.ascontiguousarray(a.T).T, "fortran": np.asfortranarray(a), "strided-rows": np.repeat(a, 2, axis=0)[::2]}
+    for name, b in layouts.items():
+        cmp(acc, f"from_numpy_array({name})", R([r for r in a], dtype=dts), observe(lambda: RaggedArray.from_numpy_array(b), dt=True))
+        cmp(acc, f"numpy-roundtrip({name})", A(a.tolist(), dtype=dts, shape=(n, m)), observe(lambda: RaggedArray.from_numpy_array(b).to_numpy_array(), dt=True))
